@@ -5,7 +5,7 @@ import TdVerif.Model.C15Kinds
 namespace TdVerif.Gen.Tc
 open TdVerif.C15
 
-/-- interned names, sorted; every table below holds indices into this list (506 names) -/
+/-- interned names, sorted; every table below holds indices into this list (509 names) -/
 def nameTable : List String := [
   "_CONFLICTING_BATCH_SIZES", "_MutableMapping__marker", "_SHARED_INPLACE_ERROR", "__abs__", "__abstractmethods__", "__add__", "__and__", "__annotations__",
   "__bool__", "__class__", "__class_getitem__", "__contains__", "__dataclass_fields__", "__dataclass_params__", "__delattr__", "__delitem__",
@@ -16,104 +16,104 @@ def nameTable : List String := [
   "__new__", "__or__", "__pow__", "__radd__", "__rand__", "__reduce__", "__reduce_ex__", "__repr__",
   "__reversed__", "__rmul__", "__ror__", "__rpow__", "__rsub__", "__rtruediv__", "__rxor__", "__setattr__",
   "__setitem__", "__setstate__", "__sizeof__", "__slots__", "__str__", "__sub__", "__subclasshook__", "__torch_function__",
-  "__truediv__", "__weakref__", "__xor__", "_abc_impl", "_add_batch_dim", "_apply_nest", "_batch_size_setter", "_cache",
-  "_cast_reduction", "_change_batch_size", "_check_batch_size", "_check_device", "_check_dim_name", "_check_is_shared", "_check_new_batch_size", "_check_unlock",
-  "_clone", "_clone_recurse", "_convert_inplace", "_convert_to_tensor", "_convert_to_tensordict", "_create_nested_str", "_create_nested_tuple", "_data",
-  "_default_get", "_depth", "_dtype", "_erase_cache", "_erase_cache_up", "_erase_names", "_exclude", "_fast_apply",
-  "_flatten_keys_inplace", "_flatten_keys_outplace", "_from_dict_validated", "_from_module", "_from_tensordict", "_get_at_str", "_get_at_tuple", "_get_names_idx",
-  "_get_non_tensor", "_get_str", "_get_sub_tensordict", "_get_tuple", "_get_tuple_maybe_non_tensor", "_grad", "_has_exclusive_keys", "_has_names",
-  "_has_non_tensor", "_index_tensordict", "_inplace_set", "_inplace_tensor_operand", "_irecv", "_is_locked", "_is_memmap", "_is_non_tensor",
-  "_is_shared", "_isend", "_items_list", "_lazy", "_legacy_permute", "_legacy_squeeze", "_legacy_transpose", "_legacy_unsqueeze",
-  "_legacy_view", "_load_memmap", "_lock_parents_weakrefs", "_make_memmap_subtd", "_map", "_maybe_names", "_maybe_remove_batch_dim", "_maybe_set_shared_attributes",
-  "_memmap_", "_memmap_prefix", "_multithread_apply_flat", "_multithread_apply_nest", "_multithread_rebuild", "_nested_keys", "_new_impl", "_new_unsafe",
-  "_parse_batch_size", "_permute", "_propagate_lock", "_propagate_unlock", "_recv", "_reduce", "_reduce_get_metadata", "_reduce_vals_and_metadata",
-  "_remove_batch_dim", "_rename_subtds", "_repeat", "_safe", "_select", "_send", "_set_at_str", "_set_at_tuple",
-  "_set_device", "_set_dict", "_set_non_tensor", "_set_str", "_set_tuple", "_squeeze", "_stack_onto_", "_stack_onto_at_",
-  "_stream", "_sync_all", "_td_dim_names", "_to_consolidated", "_to_cuda_with_pin_mem", "_to_module", "_transpose", "_unbind",
-  "_unsqueeze", "_validate_key", "_validate_value", "_values_list", "_view", "_view_dtype", "abs", "abs_",
-  "acos", "acos_", "add", "add_", "addcdiv", "addcdiv_", "addcmul", "addcmul_",
-  "all", "amax", "amin", "any", "apply", "apply_", "as_tensor", "asin",
-  "asin_", "atan", "atan_", "auto_batch_size_", "auto_device_", "batch_dims", "batch_size", "bfloat16",
-  "bitwise_and", "bool", "bytes", "cat", "cat_from_tensordict", "cat_tensors", "ceil", "ceil_",
-  "chunk", "clamp", "clamp_max", "clamp_max_", "clamp_min", "clamp_min_", "clear", "clear_device_",
-  "clear_refs_for_compile_", "clone", "complex128", "complex32", "complex64", "consolidate", "contiguous", "copy",
-  "copy_", "copy_at_", "cos", "cos_", "cosh", "cosh_", "cpu", "create_nested",
-  "cuda", "cummax", "cummin", "data", "data_ptr", "del_", "densify", "depth",
-  "detach", "detach_", "device", "dim", "div", "div_", "double", "dtype",
-  "dumps", "empty", "empty_like", "entry_class", "erf", "erf_", "erfc", "erfc_",
-  "exclude", "exp", "exp_", "expand", "expand_as", "expm1", "expm1_", "fields",
-  "fill_", "filter_empty_", "filter_non_tensor_data", "flatten", "flatten_keys", "float", "float16", "float32",
-  "float64", "floor", "floor_", "frac", "frac_", "from_any", "from_consolidated", "from_dataclass",
-  "from_dict", "from_dict_instance", "from_h5", "from_module", "from_modules", "from_namedtuple", "from_pytree", "from_struct_array",
-  "from_tensordict", "from_tuple", "fromkeys", "full_like", "gather", "gather_and_stack", "get", "get_at",
-  "get_item_shape", "get_non_tensor", "grad", "half", "int", "int16", "int32", "int64",
-  "int8", "irecv", "is_consolidated", "is_contiguous", "is_cpu", "is_cuda", "is_empty", "is_floating_point",
-  "is_locked", "is_memmap", "is_meta", "is_shared", "isend", "isfinite", "isnan", "isneginf",
-  "isposinf", "isreal", "items", "keys", "lazy_stack", "lerp", "lerp_", "lgamma",
-  "lgamma_", "load", "load_", "load_memmap", "load_memmap_", "load_state_dict", "lock_", "log",
-  "log10", "log10_", "log1p", "log1p_", "log2", "log2_", "log_", "logical_and",
-  "logsumexp", "make_memmap", "make_memmap_from_storage", "make_memmap_from_tensor", "map", "map_iter", "masked_fill", "masked_fill_",
-  "masked_select", "max", "maximum", "maximum_", "maybe_dense_stack", "mean", "memmap", "memmap_",
-  "memmap_like", "memmap_refresh_", "min", "minimum", "minimum_", "mul", "mul_", "named_apply",
-  "names", "nanmean", "nansum", "ndim", "ndimension", "neg", "neg_", "new_empty",
-  "new_full", "new_ones", "new_tensor", "new_zeros", "non_tensor_items", "norm", "numel", "numpy",
-  "ones_like", "param_count", "permute", "pin_memory", "pin_memory_", "pop", "popitem", "pow",
-  "pow_", "prod", "qint32", "qint8", "quint4x2", "quint8", "rand_like", "randn_like",
-  "reciprocal", "reciprocal_", "record_stream", "recv", "reduce", "refine_names", "rename", "rename_",
-  "rename_key_", "repeat", "repeat_interleave", "replace", "requires_grad", "requires_grad_", "reshape", "round",
-  "round_", "save", "saved_path", "select", "send", "separates", "set", "set_",
-  "set_at_", "set_non_tensor", "setdefault", "shape", "share_memory_", "sigmoid", "sigmoid_", "sign",
-  "sign_", "sin", "sin_", "sinh", "sinh_", "size", "softmax", "sorted_keys",
-  "split", "split_keys", "sqrt", "sqrt_", "squeeze", "stack", "stack_from_tensordict", "stack_tensors",
-  "state_dict", "std", "sub", "sub_", "sum", "tan", "tan_", "tanh",
-  "tanh_", "to", "to_dict", "to_h5", "to_module", "to_namedtuple", "to_padded_tensor", "to_pytree",
-  "to_struct_array", "to_tensordict", "tolist", "transpose", "trunc", "trunc_", "type", "uint16",
-  "uint32", "uint64", "uint8", "unbind", "unflatten", "unflatten_keys", "unlock_", "unsqueeze",
-  "update", "update_", "update_at_", "values", "var", "view", "where", "zero_",
-  "zero_grad", "zeros_like"
+  "__truediv__", "__weakref__", "__xor__", "_abc_impl", "_add_batch_dim", "_apply_nest", "_batch_size_setter", "_batch_size_setter_checked",
+  "_cache", "_cast_reduction", "_change_batch_size", "_check_batch_size", "_check_device", "_check_dim_name", "_check_is_shared", "_check_new_batch_size",
+  "_check_unlock", "_clone", "_clone_recurse", "_convert_inplace", "_convert_to_tensor", "_convert_to_tensordict", "_create_nested_str", "_create_nested_tuple",
+  "_data", "_default_get", "_depth", "_dtype", "_erase_cache", "_erase_cache_up", "_erase_names", "_exclude",
+  "_fast_apply", "_flatten_keys_inplace", "_flatten_keys_outplace", "_from_dict_validated", "_from_module", "_from_tensordict", "_get_at_str", "_get_at_tuple",
+  "_get_names_idx", "_get_non_tensor", "_get_str", "_get_sub_tensordict", "_get_tuple", "_get_tuple_maybe_non_tensor", "_grad", "_has_exclusive_keys",
+  "_has_names", "_has_non_tensor", "_index_tensordict", "_inplace_set", "_inplace_tensor_operand", "_irecv", "_is_locked", "_is_memmap",
+  "_is_non_tensor", "_is_shared", "_isend", "_items_list", "_lazy", "_legacy_permute", "_legacy_squeeze", "_legacy_transpose",
+  "_legacy_unsqueeze", "_legacy_view", "_load_memmap", "_lock_parents_weakrefs", "_make_memmap_subtd", "_map", "_maybe_names", "_maybe_remove_batch_dim",
+  "_maybe_set_shared_attributes", "_memmap_", "_memmap_prefix", "_multithread_apply_flat", "_multithread_apply_nest", "_multithread_rebuild", "_nested_keys", "_nested_meta_restore",
+  "_nested_meta_snapshot", "_new_impl", "_new_unsafe", "_parse_batch_size", "_permute", "_propagate_lock", "_propagate_unlock", "_recv",
+  "_reduce", "_reduce_get_metadata", "_reduce_vals_and_metadata", "_remove_batch_dim", "_rename_subtds", "_repeat", "_safe", "_select",
+  "_send", "_set_at_str", "_set_at_tuple", "_set_device", "_set_dict", "_set_non_tensor", "_set_str", "_set_tuple",
+  "_squeeze", "_stack_onto_", "_stack_onto_at_", "_stream", "_sync_all", "_td_dim_names", "_to_consolidated", "_to_cuda_with_pin_mem",
+  "_to_module", "_transpose", "_unbind", "_unsqueeze", "_validate_key", "_validate_value", "_values_list", "_view",
+  "_view_dtype", "abs", "abs_", "acos", "acos_", "add", "add_", "addcdiv",
+  "addcdiv_", "addcmul", "addcmul_", "all", "amax", "amin", "any", "apply",
+  "apply_", "as_tensor", "asin", "asin_", "atan", "atan_", "auto_batch_size_", "auto_device_",
+  "batch_dims", "batch_size", "bfloat16", "bitwise_and", "bool", "bytes", "cat", "cat_from_tensordict",
+  "cat_tensors", "ceil", "ceil_", "chunk", "clamp", "clamp_max", "clamp_max_", "clamp_min",
+  "clamp_min_", "clear", "clear_device_", "clear_refs_for_compile_", "clone", "complex128", "complex32", "complex64",
+  "consolidate", "contiguous", "copy", "copy_", "copy_at_", "cos", "cos_", "cosh",
+  "cosh_", "cpu", "create_nested", "cuda", "cummax", "cummin", "data", "data_ptr",
+  "del_", "densify", "depth", "detach", "detach_", "device", "dim", "div",
+  "div_", "double", "dtype", "dumps", "empty", "empty_like", "entry_class", "erf",
+  "erf_", "erfc", "erfc_", "exclude", "exp", "exp_", "expand", "expand_as",
+  "expm1", "expm1_", "fields", "fill_", "filter_empty_", "filter_non_tensor_data", "flatten", "flatten_keys",
+  "float", "float16", "float32", "float64", "floor", "floor_", "frac", "frac_",
+  "from_any", "from_consolidated", "from_dataclass", "from_dict", "from_dict_instance", "from_h5", "from_module", "from_modules",
+  "from_namedtuple", "from_pytree", "from_struct_array", "from_tensordict", "from_tuple", "fromkeys", "full_like", "gather",
+  "gather_and_stack", "get", "get_at", "get_item_shape", "get_non_tensor", "grad", "half", "int",
+  "int16", "int32", "int64", "int8", "irecv", "is_consolidated", "is_contiguous", "is_cpu",
+  "is_cuda", "is_empty", "is_floating_point", "is_locked", "is_memmap", "is_meta", "is_shared", "isend",
+  "isfinite", "isnan", "isneginf", "isposinf", "isreal", "items", "keys", "lazy_stack",
+  "lerp", "lerp_", "lgamma", "lgamma_", "load", "load_", "load_memmap", "load_memmap_",
+  "load_state_dict", "lock_", "log", "log10", "log10_", "log1p", "log1p_", "log2",
+  "log2_", "log_", "logical_and", "logsumexp", "make_memmap", "make_memmap_from_storage", "make_memmap_from_tensor", "map",
+  "map_iter", "masked_fill", "masked_fill_", "masked_select", "max", "maximum", "maximum_", "maybe_dense_stack",
+  "mean", "memmap", "memmap_", "memmap_like", "memmap_refresh_", "min", "minimum", "minimum_",
+  "mul", "mul_", "named_apply", "names", "nanmean", "nansum", "ndim", "ndimension",
+  "neg", "neg_", "new_empty", "new_full", "new_ones", "new_tensor", "new_zeros", "non_tensor_items",
+  "norm", "numel", "numpy", "ones_like", "param_count", "permute", "pin_memory", "pin_memory_",
+  "pop", "popitem", "pow", "pow_", "prod", "qint32", "qint8", "quint4x2",
+  "quint8", "rand_like", "randn_like", "reciprocal", "reciprocal_", "record_stream", "recv", "reduce",
+  "refine_names", "rename", "rename_", "rename_key_", "repeat", "repeat_interleave", "replace", "requires_grad",
+  "requires_grad_", "reshape", "round", "round_", "save", "saved_path", "select", "send",
+  "separates", "set", "set_", "set_at_", "set_non_tensor", "setdefault", "shape", "share_memory_",
+  "sigmoid", "sigmoid_", "sign", "sign_", "sin", "sin_", "sinh", "sinh_",
+  "size", "softmax", "sorted_keys", "split", "split_keys", "sqrt", "sqrt_", "squeeze",
+  "stack", "stack_from_tensordict", "stack_tensors", "state_dict", "std", "sub", "sub_", "sum",
+  "tan", "tan_", "tanh", "tanh_", "to", "to_dict", "to_h5", "to_module",
+  "to_namedtuple", "to_padded_tensor", "to_pytree", "to_struct_array", "to_tensordict", "tolist", "transpose", "trunc",
+  "trunc_", "type", "uint16", "uint32", "uint64", "uint8", "unbind", "unflatten",
+  "unflatten_keys", "unlock_", "unsqueeze", "update", "update_", "update_at_", "values", "var",
+  "view", "where", "zero_", "zero_grad", "zeros_like"
 ]
 
 /-- tensorclass.py `_METHOD_FROM_TD` (7 entries, source order) -/
-def methodFromTd : List Nat := [264, 346, 374, 375, 376, 377, 433]
+def methodFromTd : List Nat := [267, 349, 377, 378, 379, 380, 436]
 
 /-- tensorclass.py `_FALLBACK_METHOD_FROM_TD` (279 entries, source order) -/
-def fallbackWrap : List Nat := [3, 5, 6, 8, 20, 31, 32, 35, 36, 37, 39, 45, 46, 47, 49, 50, 51, 52, 57, 59, 60, 61, 62, 69, 72, 74, 76, 77, 89, 95, 101, 102, 103, 104, 105, 114, 117, 140, 142, 144, 153, 160, 162, 164, 167, 172, 181, 190, 191, 192, 193, 194, 195, 196, 197, 198, 199, 200, 201, 202, 203, 204, 205, 206, 207, 208, 209, 210, 211, 212, 215, 216, 217, 219, 220, 221, 222, 223, 224, 225, 226, 227, 228, 229, 230, 231, 232, 234, 235, 236, 237, 238, 240, 241, 242, 243, 244, 245, 246, 247, 248, 249, 250, 254, 256, 257, 260, 261, 262, 265, 268, 269, 270, 271, 272, 273, 274, 275, 276, 277, 278, 280, 281, 282, 283, 284, 285, 286, 287, 288, 289, 290, 291, 292, 293, 294, 295, 298, 300, 301, 302, 303, 305, 306, 308, 309, 315, 316, 317, 318, 319, 320, 333, 334, 335, 336, 337, 340, 341, 342, 343, 344, 348, 350, 351, 352, 353, 354, 355, 356, 357, 358, 359, 360, 362, 364, 365, 366, 367, 368, 369, 370, 371, 372, 373, 378, 379, 380, 381, 382, 383, 385, 386, 389, 390, 391, 392, 393, 394, 395, 397, 402, 403, 404, 406, 407, 408, 409, 410, 411, 412, 413, 416, 417, 418, 421, 422, 423, 424, 425, 426, 427, 429, 430, 431, 432, 435, 437, 439, 441, 442, 445, 446, 447, 448, 449, 450, 451, 452, 454, 456, 457, 458, 459, 460, 461, 462, 463, 465, 466, 467, 468, 469, 470, 471, 472, 473, 475, 476, 477, 478, 479, 483, 484, 485, 486, 487, 488, 489, 490, 492, 493, 494, 495, 500, 501, 502, 503, 504]
+def fallbackWrap : List Nat := [3, 5, 6, 8, 20, 31, 32, 35, 36, 37, 39, 45, 46, 47, 49, 50, 51, 52, 57, 59, 60, 61, 62, 69, 72, 74, 76, 77, 90, 96, 102, 103, 104, 105, 106, 115, 118, 141, 143, 145, 156, 163, 165, 167, 170, 175, 184, 193, 194, 195, 196, 197, 198, 199, 200, 201, 202, 203, 204, 205, 206, 207, 208, 209, 210, 211, 212, 213, 214, 215, 218, 219, 220, 222, 223, 224, 225, 226, 227, 228, 229, 230, 231, 232, 233, 234, 235, 237, 238, 239, 240, 241, 243, 244, 245, 246, 247, 248, 249, 250, 251, 252, 253, 257, 259, 260, 263, 264, 265, 268, 271, 272, 273, 274, 275, 276, 277, 278, 279, 280, 281, 283, 284, 285, 286, 287, 288, 289, 290, 291, 292, 293, 294, 295, 296, 297, 298, 301, 303, 304, 305, 306, 308, 309, 311, 312, 318, 319, 320, 321, 322, 323, 336, 337, 338, 339, 340, 343, 344, 345, 346, 347, 351, 353, 354, 355, 356, 357, 358, 359, 360, 361, 362, 363, 365, 367, 368, 369, 370, 371, 372, 373, 374, 375, 376, 381, 382, 383, 384, 385, 386, 388, 389, 392, 393, 394, 395, 396, 397, 398, 400, 405, 406, 407, 409, 410, 411, 412, 413, 414, 415, 416, 419, 420, 421, 424, 425, 426, 427, 428, 429, 430, 432, 433, 434, 435, 438, 440, 442, 444, 445, 448, 449, 450, 451, 452, 453, 454, 455, 457, 459, 460, 461, 462, 463, 464, 465, 466, 468, 469, 470, 471, 472, 473, 474, 475, 476, 478, 479, 480, 481, 482, 486, 487, 488, 489, 490, 491, 492, 493, 495, 496, 497, 498, 503, 504, 505, 506, 507]
 
 /-- tensorclass.py `_FALLBACK_METHOD_FROM_TD_NOWRAP` (66 entries, source order) -/
-def fallbackNowrap : List Nat := [11, 82, 83, 84, 87, 96, 109, 110, 111, 113, 115, 116, 119, 130, 141, 146, 147, 148, 154, 155, 158, 187, 213, 214, 218, 252, 255, 259, 263, 267, 312, 313, 321, 322, 323, 324, 325, 326, 327, 328, 329, 330, 331, 332, 338, 339, 361, 363, 384, 387, 388, 398, 399, 401, 405, 419, 420, 428, 434, 436, 443, 453, 455, 480, 482, 499]
+def fallbackNowrap : List Nat := [11, 83, 84, 85, 88, 97, 110, 111, 112, 114, 116, 117, 120, 131, 142, 147, 148, 149, 157, 158, 161, 190, 216, 217, 221, 255, 258, 262, 266, 270, 315, 316, 324, 325, 326, 327, 328, 329, 330, 331, 332, 333, 334, 335, 341, 342, 364, 366, 387, 390, 391, 401, 402, 404, 408, 422, 423, 431, 437, 439, 446, 456, 458, 483, 485, 502]
 
 /-- tensorclass.py `_FALLBACK_METHOD_FROM_TD_FORCE` (5 entries, source order) -/
 def fallbackForce : List Nat := [23, 29, 40, 42, 58]
 
 /-- tensorclass.py `_FALLBACK_METHOD_FROM_TD_COPY` (3 entries, source order) -/
-def fallbackCopy : List Nat := [88, 233, 239]
+def fallbackCopy : List Nat := [89, 236, 242]
 
 /-- tensorclass.py `_CLEAR_METADATA` (2 entries, source order) -/
-def clearMetadata : List Nat := [200, 203]
+def clearMetadata : List Nat := [203, 206]
 
 /-- tensorclass.py `_TD_PASS_THROUGH` (20 entries, source order) -/
-def passThrough : List Nat := [219, 233, 266, 283, 307, 308, 368, 400, 402, 414, 415, 456, 460, 461, 483, 491, 492, 495, 502, 505]
+def passThrough : List Nat := [222, 236, 269, 286, 310, 311, 371, 403, 405, 417, 418, 459, 463, 464, 486, 494, 495, 498, 505, 508]
 
 /-- reflection: publicApi (308) -/
-def publicApi : List Nat := [190, 191, 192, 193, 194, 195, 196, 197, 198, 199, 200, 201, 202, 203, 204, 205, 206, 207, 208, 209, 210, 211, 212, 213, 214, 215, 216, 217, 218, 219, 220, 221, 222, 223, 224, 225, 226, 227, 228, 229, 230, 231, 232, 233, 234, 235, 236, 237, 238, 239, 240, 241, 242, 243, 244, 245, 246, 247, 248, 249, 250, 251, 252, 253, 254, 255, 256, 257, 258, 259, 260, 261, 262, 263, 264, 265, 267, 268, 269, 270, 271, 272, 273, 274, 275, 276, 277, 278, 280, 281, 282, 283, 284, 285, 286, 287, 288, 289, 290, 291, 292, 293, 294, 295, 296, 297, 298, 299, 300, 301, 302, 303, 305, 306, 308, 309, 310, 311, 312, 313, 314, 315, 316, 317, 318, 319, 320, 321, 322, 323, 324, 325, 326, 327, 328, 329, 330, 331, 332, 333, 334, 335, 336, 337, 338, 339, 340, 341, 342, 343, 344, 345, 346, 347, 348, 349, 350, 351, 352, 353, 354, 355, 356, 357, 358, 359, 360, 361, 362, 363, 364, 365, 366, 367, 368, 369, 370, 371, 372, 373, 374, 375, 376, 377, 378, 379, 380, 381, 382, 383, 384, 385, 386, 387, 388, 389, 390, 391, 392, 393, 394, 395, 396, 397, 398, 399, 401, 402, 403, 404, 405, 406, 407, 408, 409, 410, 411, 412, 413, 416, 417, 418, 419, 420, 421, 422, 423, 424, 425, 426, 427, 428, 429, 430, 431, 432, 433, 434, 435, 436, 437, 438, 439, 440, 441, 442, 443, 444, 445, 446, 447, 448, 449, 450, 451, 452, 453, 454, 455, 456, 457, 458, 459, 460, 461, 462, 463, 464, 465, 466, 467, 468, 469, 470, 471, 472, 473, 474, 475, 476, 477, 478, 479, 480, 481, 482, 483, 484, 485, 486, 487, 488, 489, 490, 491, 492, 493, 494, 495, 496, 497, 498, 499, 500, 501, 502, 503, 504]
+def publicApi : List Nat := [193, 194, 195, 196, 197, 198, 199, 200, 201, 202, 203, 204, 205, 206, 207, 208, 209, 210, 211, 212, 213, 214, 215, 216, 217, 218, 219, 220, 221, 222, 223, 224, 225, 226, 227, 228, 229, 230, 231, 232, 233, 234, 235, 236, 237, 238, 239, 240, 241, 242, 243, 244, 245, 246, 247, 248, 249, 250, 251, 252, 253, 254, 255, 256, 257, 258, 259, 260, 261, 262, 263, 264, 265, 266, 267, 268, 270, 271, 272, 273, 274, 275, 276, 277, 278, 279, 280, 281, 283, 284, 285, 286, 287, 288, 289, 290, 291, 292, 293, 294, 295, 296, 297, 298, 299, 300, 301, 302, 303, 304, 305, 306, 308, 309, 311, 312, 313, 314, 315, 316, 317, 318, 319, 320, 321, 322, 323, 324, 325, 326, 327, 328, 329, 330, 331, 332, 333, 334, 335, 336, 337, 338, 339, 340, 341, 342, 343, 344, 345, 346, 347, 348, 349, 350, 351, 352, 353, 354, 355, 356, 357, 358, 359, 360, 361, 362, 363, 364, 365, 366, 367, 368, 369, 370, 371, 372, 373, 374, 375, 376, 377, 378, 379, 380, 381, 382, 383, 384, 385, 386, 387, 388, 389, 390, 391, 392, 393, 394, 395, 396, 397, 398, 399, 400, 401, 402, 404, 405, 406, 407, 408, 409, 410, 411, 412, 413, 414, 415, 416, 419, 420, 421, 422, 423, 424, 425, 426, 427, 428, 429, 430, 431, 432, 433, 434, 435, 436, 437, 438, 439, 440, 441, 442, 443, 444, 445, 446, 447, 448, 449, 450, 451, 452, 453, 454, 455, 456, 457, 458, 459, 460, 461, 462, 463, 464, 465, 466, 467, 468, 469, 470, 471, 472, 473, 474, 475, 476, 477, 478, 479, 480, 481, 482, 483, 484, 485, 486, 487, 488, 489, 490, 491, 492, 493, 494, 495, 496, 497, 498, 499, 500, 501, 502, 503, 504, 505, 506, 507]
 
 /-- reflection: operatorApi (40) -/
 def operatorApi : List Nat := [3, 5, 6, 8, 11, 15, 19, 20, 21, 23, 26, 27, 29, 31, 32, 35, 36, 37, 38, 39, 40, 41, 42, 45, 46, 47, 49, 50, 51, 52, 57, 58, 59, 60, 61, 62, 64, 69, 72, 74]
 
-/-- reflection: tdAttrs (493) -/
-def tdAttrs : List Nat := [0, 1, 2, 3, 4, 5, 6, 7, 8, 9, 10, 11, 14, 15, 16, 17, 18, 19, 20, 21, 22, 23, 25, 26, 27, 28, 29, 30, 31, 32, 33, 34, 35, 36, 37, 38, 39, 40, 41, 42, 44, 45, 46, 47, 48, 49, 50, 51, 52, 53, 54, 55, 56, 57, 58, 59, 60, 61, 62, 63, 64, 65, 66, 67, 68, 69, 70, 71, 72, 73, 74, 75, 76, 77, 78, 79, 80, 81, 82, 83, 84, 85, 86, 87, 88, 89, 90, 91, 92, 93, 94, 95, 96, 97, 98, 99, 100, 101, 102, 103, 104, 105, 106, 107, 109, 110, 111, 112, 113, 114, 115, 116, 117, 118, 119, 120, 121, 122, 123, 124, 125, 126, 127, 128, 129, 130, 131, 132, 133, 134, 135, 136, 137, 138, 139, 140, 141, 142, 143, 144, 145, 146, 147, 148, 149, 150, 151, 152, 153, 154, 155, 156, 157, 158, 159, 160, 161, 162, 163, 164, 165, 166, 167, 168, 169, 170, 171, 172, 173, 174, 175, 176, 177, 178, 179, 180, 181, 182, 183, 184, 185, 186, 187, 188, 189, 190, 191, 192, 193, 194, 195, 196, 197, 198, 199, 200, 201, 202, 203, 204, 205, 206, 207, 208, 209, 210, 211, 212, 213, 214, 215, 216, 217, 218, 219, 220, 221, 222, 223, 224, 225, 226, 227, 228, 229, 230, 231, 232, 233, 234, 235, 236, 237, 238, 239, 240, 241, 242, 243, 244, 245, 246, 247, 248, 249, 250, 251, 252, 253, 254, 255, 256, 257, 258, 259, 260, 261, 262, 263, 264, 265, 267, 268, 269, 270, 271, 272, 273, 274, 275, 276, 277, 278, 280, 281, 282, 283, 284, 285, 286, 287, 288, 289, 290, 291, 292, 293, 294, 295, 296, 297, 298, 299, 300, 301, 302, 303, 305, 306, 308, 309, 310, 311, 312, 313, 314, 315, 316, 317, 318, 319, 320, 321, 322, 323, 324, 325, 326, 327, 328, 329, 330, 331, 332, 333, 334, 335, 336, 337, 338, 339, 340, 341, 342, 343, 344, 345, 346, 347, 348, 349, 350, 351, 352, 353, 354, 355, 356, 357, 358, 359, 360, 361, 362, 363, 364, 365, 366, 367, 368, 369, 370, 371, 372, 373, 374, 375, 376, 377, 378, 379, 380, 381, 382, 383, 384, 385, 386, 387, 388, 389, 390, 391, 392, 393, 394, 395, 396, 397, 398, 399, 401, 402, 403, 404, 405, 406, 407, 408, 409, 410, 411, 412, 413, 416, 417, 418, 419, 420, 421, 422, 423, 424, 425, 426, 427, 428, 429, 430, 431, 432, 433, 434, 435, 436, 437, 438, 439, 440, 441, 442, 443, 444, 445, 446, 447, 448, 449, 450, 451, 452, 453, 454, 455, 456, 457, 458, 459, 460, 461, 462, 463, 464, 465, 466, 467, 468, 469, 470, 471, 472, 473, 474, 475, 476, 477, 478, 479, 480, 481, 482, 483, 484, 485, 486, 487, 488, 489, 490, 491, 492, 493, 494, 495, 496, 497, 498, 499, 500, 501, 502, 503, 504]
+/-- reflection: tdAttrs (496) -/
+def tdAttrs : List Nat := [0, 1, 2, 3, 4, 5, 6, 7, 8, 9, 10, 11, 14, 15, 16, 17, 18, 19, 20, 21, 22, 23, 25, 26, 27, 28, 29, 30, 31, 32, 33, 34, 35, 36, 37, 38, 39, 40, 41, 42, 44, 45, 46, 47, 48, 49, 50, 51, 52, 53, 54, 55, 56, 57, 58, 59, 60, 61, 62, 63, 64, 65, 66, 67, 68, 69, 70, 71, 72, 73, 74, 75, 76, 77, 78, 79, 80, 81, 82, 83, 84, 85, 86, 87, 88, 89, 90, 91, 92, 93, 94, 95, 96, 97, 98, 99, 100, 101, 102, 103, 104, 105, 106, 107, 108, 110, 111, 112, 113, 114, 115, 116, 117, 118, 119, 120, 121, 122, 123, 124, 125, 126, 127, 128, 129, 130, 131, 132, 133, 134, 135, 136, 137, 138, 139, 140, 141, 142, 143, 144, 145, 146, 147, 148, 149, 150, 151, 152, 153, 154, 155, 156, 157, 158, 159, 160, 161, 162, 163, 164, 165, 166, 167, 168, 169, 170, 171, 172, 173, 174, 175, 176, 177, 178, 179, 180, 181, 182, 183, 184, 185, 186, 187, 188, 189, 190, 191, 192, 193, 194, 195, 196, 197, 198, 199, 200, 201, 202, 203, 204, 205, 206, 207, 208, 209, 210, 211, 212, 213, 214, 215, 216, 217, 218, 219, 220, 221, 222, 223, 224, 225, 226, 227, 228, 229, 230, 231, 232, 233, 234, 235, 236, 237, 238, 239, 240, 241, 242, 243, 244, 245, 246, 247, 248, 249, 250, 251, 252, 253, 254, 255, 256, 257, 258, 259, 260, 261, 262, 263, 264, 265, 266, 267, 268, 270, 271, 272, 273, 274, 275, 276, 277, 278, 279, 280, 281, 283, 284, 285, 286, 287, 288, 289, 290, 291, 292, 293, 294, 295, 296, 297, 298, 299, 300, 301, 302, 303, 304, 305, 306, 308, 309, 311, 312, 313, 314, 315, 316, 317, 318, 319, 320, 321, 322, 323, 324, 325, 326, 327, 328, 329, 330, 331, 332, 333, 334, 335, 336, 337, 338, 339, 340, 341, 342, 343, 344, 345, 346, 347, 348, 349, 350, 351, 352, 353, 354, 355, 356, 357, 358, 359, 360, 361, 362, 363, 364, 365, 366, 367, 368, 369, 370, 371, 372, 373, 374, 375, 376, 377, 378, 379, 380, 381, 382, 383, 384, 385, 386, 387, 388, 389, 390, 391, 392, 393, 394, 395, 396, 397, 398, 399, 400, 401, 402, 404, 405, 406, 407, 408, 409, 410, 411, 412, 413, 414, 415, 416, 419, 420, 421, 422, 423, 424, 425, 426, 427, 428, 429, 430, 431, 432, 433, 434, 435, 436, 437, 438, 439, 440, 441, 442, 443, 444, 445, 446, 447, 448, 449, 450, 451, 452, 453, 454, 455, 456, 457, 458, 459, 460, 461, 462, 463, 464, 465, 466, 467, 468, 469, 470, 471, 472, 473, 474, 475, 476, 477, 478, 479, 480, 481, 482, 483, 484, 485, 486, 487, 488, 489, 490, 491, 492, 493, 494, 495, 496, 497, 498, 499, 500, 501, 502, 503, 504, 505, 506, 507]
 
 /-- reflection: tdProperties (18) -/
-def tdProperties : List Nat := [120, 138, 213, 214, 251, 255, 258, 263, 314, 324, 325, 328, 384, 387, 428, 434, 443, 455]
+def tdProperties : List Nat := [121, 139, 216, 217, 254, 258, 261, 266, 317, 327, 328, 331, 387, 390, 431, 437, 446, 458]
 
 /-- reflection: tdValueAttrs (21) -/
-def tdValueAttrs : List Nat := [0, 1, 4, 7, 16, 18, 30, 44, 56, 67, 73, 75, 79, 122, 125, 127, 131, 145, 163, 176, 330]
+def tdValueAttrs : List Nat := [0, 1, 4, 7, 16, 18, 30, 44, 56, 67, 73, 75, 80, 123, 126, 128, 132, 146, 166, 179, 333]
 
 /-- reflection: tdOwnClassmethods (6) -/
-def tdOwnClassmethods : List Nat := [106, 107, 137, 151, 296, 299]
+def tdOwnClassmethods : List Nat := [107, 108, 138, 154, 299, 302]
 
 /-- reflection: tdClassmethods (25) -/
-def tdClassmethods : List Nat := [10, 70, 71, 106, 107, 137, 151, 219, 293, 294, 295, 296, 298, 299, 300, 301, 302, 303, 305, 306, 340, 345, 347, 372, 461]
+def tdClassmethods : List Nat := [10, 70, 71, 107, 108, 138, 154, 222, 296, 297, 298, 299, 301, 302, 303, 304, 305, 306, 308, 309, 343, 348, 350, 375, 464]
 
 /-- reflection: objectAttrs (27) -/
 def objectAttrs : List Nat := [9, 14, 16, 17, 18, 20, 22, 23, 25, 28, 29, 30, 33, 34, 40, 42, 44, 46, 48, 53, 54, 55, 63, 66, 68, 70, 73]
@@ -125,7 +125,7 @@ def dataclassAdds : List Nat := [12, 13, 20, 30, 33, 43, 55]
 def dataclassAddsFrozen : List Nat := [12, 13, 14, 20, 30, 33, 43, 55, 63]
 
 /-- reflection: handledFunctions (20) -/
-def handledFunctions : List Nat := [219, 233, 266, 283, 307, 308, 368, 400, 402, 414, 415, 456, 460, 461, 483, 491, 492, 495, 502, 505]
+def handledFunctions : List Nat := [222, 236, 269, 286, 310, 311, 371, 403, 405, 417, 418, 459, 463, 464, 486, 494, 495, 498, 505, 508]
 
 /-- reflection: dunderNames (72) -/
 def dunderNames : List Nat := [3, 4, 5, 6, 7, 8, 9, 10, 11, 12, 13, 14, 15, 16, 17, 18, 19, 20, 21, 22, 23, 24, 25, 26, 27, 28, 29, 30, 31, 32, 33, 34, 35, 36, 37, 38, 39, 40, 41, 42, 43, 44, 45, 46, 47, 48, 49, 50, 51, 52, 53, 54, 55, 56, 57, 58, 59, 60, 61, 62, 63, 64, 65, 66, 67, 68, 69, 70, 71, 72, 73, 74]
@@ -143,10 +143,10 @@ def tableOf : TableId → List Nat
 
 /-- tensorclass.py:_tensorclass — every `cls.X = …` / `setattr(cls, …)` in source order (55 steps) -/
 def installProgram : List Step := [
-  .assign 279 [] (.explicit "classmethod:dataclasses.fields"),  -- fields
+  .assign 282 [] (.explicit "classmethod:dataclasses.fields"),  -- fields
   .assign 33 [] (.explicit "_init_wrapper"),  -- __init__
-  .assign 108 [] (.explicit "classmethod:_from_tensordict"),  -- _from_tensordict
-  .assign 304 [] (.explicit "alias:_from_tensordict"),  -- from_tensordict
+  .assign 109 [] (.explicit "classmethod:_from_tensordict"),  -- _from_tensordict
+  .assign 307 [] (.explicit "alias:_from_tensordict"),  -- from_tensordict
   .assign 71 [.noAttr] (.explicit "classmethod:__torch_function__"),  -- __torch_function__
   .assign 28 [] (.explicit "_getstate"),  -- __getstate__
   .assign 65 [] (.explicit "_setstate"),  -- __setstate__
@@ -163,23 +163,23 @@ def installProgram : List Step := [
   .assign 49 [] (.explicit "_or"),  -- __or__
   .assign 74 [] (.explicit "_xor"),  -- __xor__
   .assign 8 [] (.explicit "_bool"),  -- __bool__
-  .assign 396 [.noAttr, .noField] (.explicit "_non_tensor_items"),  -- non_tensor_items
-  .assign 438 [.noAttr, .noField] (.explicit "_set"),  -- set
-  .assign 440 [.noAttr, .noField] (.explicit "_set_at_"),  -- set_at_
-  .assign 171 [.noAttr] (.explicit "_set_str"),  -- _set_str
-  .assign 166 [.noAttr] (.explicit "_set_at_str"),  -- _set_at_str
-  .assign 253 [.noAttr, .noField] (.explicit "_del_"),  -- del_
-  .assign 310 [.noAttr, .noField] (.explicit "_get"),  -- get
-  .assign 311 [.noAttr, .noField] (.explicit "_get_at"),  -- get_at
-  .assign 491 [.noAttr, .noField] (.explicit "_unbind"),  -- unbind
-  .assign 183 [] (.explicit "_unbind"),  -- _unbind
-  .assign 464 [.noAttr, .noField] (.explicit "_state_dict"),  -- state_dict
-  .assign 349 [.noAttr, .noField] (.explicit "_load_state_dict"),  -- load_state_dict
-  .assign 144 [.noAttr, .noField] (.explicit "_memmap_"),  -- _memmap_
-  .assign 444 [.noAttr, .noField] (.explicit "_share_memory_"),  -- share_memory_
-  .assign 496 [.noAttr, .noField] (.explicit "_update"),  -- update
-  .assign 497 [.noAttr, .noField] (.explicit "_update_"),  -- update_
-  .assign 498 [.noAttr, .noField] (.explicit "_update_at_"),  -- update_at_
+  .assign 399 [.noAttr, .noField] (.explicit "_non_tensor_items"),  -- non_tensor_items
+  .assign 441 [.noAttr, .noField] (.explicit "_set"),  -- set
+  .assign 443 [.noAttr, .noField] (.explicit "_set_at_"),  -- set_at_
+  .assign 174 [.noAttr] (.explicit "_set_str"),  -- _set_str
+  .assign 169 [.noAttr] (.explicit "_set_at_str"),  -- _set_at_str
+  .assign 256 [.noAttr, .noField] (.explicit "_del_"),  -- del_
+  .assign 313 [.noAttr, .noField] (.explicit "_get"),  -- get
+  .assign 314 [.noAttr, .noField] (.explicit "_get_at"),  -- get_at
+  .assign 494 [.noAttr, .noField] (.explicit "_unbind"),  -- unbind
+  .assign 186 [] (.explicit "_unbind"),  -- _unbind
+  .assign 467 [.noAttr, .noField] (.explicit "_state_dict"),  -- state_dict
+  .assign 352 [.noAttr, .noField] (.explicit "_load_state_dict"),  -- load_state_dict
+  .assign 145 [.noAttr, .noField] (.explicit "_memmap_"),  -- _memmap_
+  .assign 447 [.noAttr, .noField] (.explicit "_share_memory_"),  -- share_memory_
+  .assign 499 [.noAttr, .noField] (.explicit "_update"),  -- update
+  .assign 500 [.noAttr, .noField] (.explicit "_update_"),  -- update_
+  .assign 501 [.noAttr, .noField] (.explicit "_update_at_"),  -- update_at_
   .loop .methodFromTd [.noAttr] (.fromTD),  -- for method_name in _METHOD_FROM_TD
   .loop .fallbackWrap [.noAttr] (.wrap),  -- for method_name in _FALLBACK_METHOD_FROM_TD
   .loop .fallbackForce [] (.wrap),  -- for method_name in _FALLBACK_METHOD_FROM_TD_FORCE
@@ -187,17 +187,17 @@ def installProgram : List Step := [
   .loop .fallbackCopy [.noAttr] (.copy),  -- for method_name in _FALLBACK_METHOD_FROM_TD_COPY
   .assign 19 [] (.explicit "__enter__"),  -- __enter__
   .assign 21 [] (.explicit "__exit__"),  -- __exit__
-  .assign 347 [.noAttr, .noField] (.fromTD),  -- load_memmap
-  .assign 345 [.noAttr, .noField] (.fromTD),  -- load
-  .assign 137 [.noAttr] (.explicit "classmethod:_load_memmap"),  -- _load_memmap
-  .assign 296 [.noAttr, .noField] (.explicit "classmethod:_from_dict"),  -- from_dict
-  .assign 297 [.noAttr, .noField] (.explicit "_from_dict_instance"),  -- from_dict_instance
+  .assign 350 [.noAttr, .noField] (.fromTD),  -- load_memmap
+  .assign 348 [.noAttr, .noField] (.fromTD),  -- load
+  .assign 138 [.noAttr] (.explicit "classmethod:_load_memmap"),  -- _load_memmap
+  .assign 299 [.noAttr, .noField] (.explicit "classmethod:_from_dict"),  -- from_dict
+  .assign 300 [.noAttr, .noField] (.explicit "_from_dict_instance"),  -- from_dict_instance
   .classmethodLoop true,  -- for attr in TensorDict.__dict__: classmethods not in cls.__dict__ and not inherited as a classmethod object
-  .assign 481 [.noAttr, .noField] (.explicit "_to_tensordict"),  -- to_tensordict
-  .assign 258 [.noAttr, .noField] (.explicit "property:_device"),  -- device
-  .assign 251 [.notNonTensor, .noAttr, .noField] (.explicit "property:_data"),  -- data
-  .assign 314 [.noAttr, .noField] (.explicit "property:_grad"),  -- grad
-  .assign 474 [.noAttr, .noField] (.explicit "_to_dict")  -- to_dict
+  .assign 484 [.noAttr, .noField] (.explicit "_to_tensordict"),  -- to_tensordict
+  .assign 261 [.noAttr, .noField] (.explicit "property:_device"),  -- device
+  .assign 254 [.notNonTensor, .noAttr, .noField] (.explicit "property:_data"),  -- data
+  .assign 317 [.noAttr, .noField] (.explicit "property:_grad"),  -- grad
+  .assign 477 [.noAttr, .noField] (.explicit "_to_dict")  -- to_dict
 ]
 
 end TdVerif.Gen.Tc
